@@ -17,7 +17,7 @@
 EXTENDS Integers, Sequences, FiniteSets, TLC, Json, IOUtils
 
 Ref == JsonDeserialize(IOEnv.HISTORY_REF)      \* [nt, nc, maxops, nsols: <<<<n per cfg>> per template>>]
-NT == Ref.nt
+NT == Ref.nt                                   \* base templates; template NT + 2(t-1) + b = part b of split(2, var 0) of t
 NC == Ref.nc
 MaxOps == Ref.maxops
 NSols(t, c) == Ref.nsols[t][c]
@@ -27,6 +27,10 @@ St0 == [probs |-> << >>, solvers |-> << >>, regs |-> 0]
 Running(st, s) == s \in 1..Len(st.solvers) /\ st.solvers[s].st = "running"
 Enabled(st, o) ==
   CASE o.op = "newproblem" -> Len(st.probs) < 2 /\ o.a \in 1..NT
+    \* Problem.split(2, 0) of an existing problem object - whatever was built on it or solved with it before; the part
+    \* kept becomes a problem object of its own (at most one split per history)
+    [] o.op = "split"      -> Len(st.probs) < 3 /\ o.a \in 1..Len(st.probs) /\ st.probs[o.a] <= NT /\ o.b \in 1..2
+                              /\ \A k \in 1..Len(st.probs) : st.probs[k] <= NT
     [] o.op = "newsolver"  -> Len(st.solvers) < 3 /\ o.a \in 1..Len(st.probs) /\ o.b \in 1..NC
     [] o.op = "step"       -> Running(st, o.a)
     [] o.op = "drain"      -> Running(st, o.a)
@@ -46,6 +50,7 @@ Expect(st, o) ==
   ELSE [t |-> 0, c |-> 0, from |-> 0, to |-> 0, ends |-> FALSE]
 Apply(st, o) ==
   CASE o.op = "newproblem" -> [st EXCEPT !.probs = Append(@, o.a)]
+    [] o.op = "split"      -> [st EXCEPT !.probs = Append(@, NT + 2 * (st.probs[o.a] - 1) + o.b)]
     [] o.op = "newsolver"  -> [st EXCEPT !.solvers = Append(@, [prob |-> o.a, cfg |-> o.b, cursor |-> 0, st |-> "running"])]
     [] o.op = "step"       -> LET e == Expect(st, o) IN
                               [st EXCEPT !.solvers[o.a].cursor = e.to, !.solvers[o.a].st = IF e.ends THEN "done" ELSE "running"]
@@ -54,7 +59,8 @@ Apply(st, o) ==
     [] o.op = "register"   -> [st EXCEPT !.regs = @ + 1]
 
 AllOps == {[op |-> "newproblem", a |-> t, b |-> 0] : t \in 1..NT}
-          \cup {[op |-> "newsolver", a |-> p, b |-> c] : p \in 1..2, c \in 1..NC}
+          \cup {[op |-> "newsolver", a |-> p, b |-> c] : p \in 1..3, c \in 1..NC}
+          \cup {[op |-> "split", a |-> p, b |-> k] : p \in 1..2, k \in 1..2}
           \cup {[op |-> k, a |-> s, b |-> 0] : k \in {"step", "drain", "abandon"}, s \in 1..3}
           \cup {[op |-> "register", a |-> k, b |-> 0] : k \in 1..4}
 
